@@ -165,6 +165,20 @@ var (
 	LockErrors []string
 )
 
+// mutexOwner: the thread (0 = the harness thread, n = the n-th goroutine spawned) that holds the mutex.
+var mutexOwner = map[*sync.Mutex]int{}
+
+// MutexesOwnedBy lists the mutexes a thread holds right now.
+func MutexesOwnedBy(thread int) []*sync.Mutex {
+	var out []*sync.Mutex
+	for m, held := range mutexHeld {
+		if held != 0 && mutexOwner[m] == thread {
+			out = append(out, m)
+		}
+	}
+	return out
+}
+
 //verif:replace (*sync.Mutex).Lock
 func MutexLock(m *sync.Mutex) {
 	if mutexHeld[m] != 0 {
@@ -172,7 +186,14 @@ func MutexLock(m *sync.Mutex) {
 		LockErrors = append(LockErrors, "lock of a mutex that is already held")
 		Stop("deadlock: Lock on a mutex that is held and never released")
 	}
+	if ParkedHelperHolds(m, CurrentThread()) {
+		// sequential mode ran the helper goroutine to completion, but in a real run it is still parked inside its
+		// pipe write (nobody has read what it wrote) and keeps the locks it held there
+		LockErrors = append(LockErrors, "lock of a mutex held by a helper goroutine that is parked on a pipe")
+		Stop("deadlock: Lock on a mutex held by a helper goroutine that is parked on its pipe write")
+	}
 	mutexHeld[m] = 1
+	mutexOwner[m] = CurrentThread()
 	LockEvent(m, true)
 }
 
@@ -191,7 +212,11 @@ func MutexTryLock(m *sync.Mutex) bool {
 	if mutexHeld[m] != 0 {
 		return false
 	}
+	if ParkedHelperHolds(m, CurrentThread()) {
+		return false
+	}
 	mutexHeld[m] = 1
+	mutexOwner[m] = CurrentThread()
 	LockEvent(m, true)
 	return true
 }
